@@ -128,7 +128,7 @@ class C20(HistoryProperty):
     )
     ASSUMPTIONS = ["the same labrea source tree is importable in the fresh interpreter (PYTHONPATH inherited)"]
     STUBS = ["user callables: module-level functions of labsim.c20rt and of the generated module"]
-    QUICK = {"runs": 1500, "wall": 45}
+    QUICK = {"runs": 7000, "wall": 45}
     THOROUGH = {"runs": 150000, "wall": 540}
     NONTRIVIAL_MEASURE = "history_compared_after_restart"
 
